@@ -17,9 +17,19 @@ R(cond, why) == IF cond THEN {} ELSE {why}
       non-decreasing distance; and iterator::range, adapt_range and the moore/neumann neighbour helpers
       return exactly the stated elements."
    Judged but OBSERVED ONLY (prefix "obs:", never rejects a record): fcppt::range::size, math::int_range,
-   what a cyclic iterator dereferences to, the random-access operations that are not "advance by n"
-   (difference, subscript, ordering, equality, swap, values returned by ++/--), and the input-iterator
-   operations of int_iterator / enum_::iterator taken by themselves. *)
+   what a cyclic iterator dereferences to (the value; the element reached is judged by identity), ordering,
+   equality, swap of cyclic iterators, and the input-iterator operations of int_iterator / enum_::iterator
+   taken by themselves.
+   Round 3 (in scope, with the clause quoted at each reason):
+   * "a cyclic iterator advanced by n equals |n| single steps forward or backward and always stays inside its
+     boundary": every way fcppt::iterator::base offers to advance by n - `it += n`, `it + n`, `n + it`,
+     `it -= n`, `it - n`, `it[n]` (= *(it + n): the element reached, by address), `(it + n).operator->()` -
+     and every way to take a single step - `++it`, `it++`, `--it`, `it--` with the iterators they return -
+     must reach the element |n| single steps away; `a + (b - a)` (b - a is documented in base_decl.hpp as "the
+     value to advance *this with in order to be equal to the argument") must reach b.
+   * "make_int_range(b, e) yields ...", "enum ranges yield ...", "the grid spiral range visits ...": what a
+     range yields is what its iterator pair enumerates under the input-iterator protocol; the second walk
+     `*it++` / `!(it == end)` (seq2 / vis2) uses the post-increment and operator== that iterator::base derives. *)
 Obs(S) == {"obs:" \o w : w \in S}
 
 RangesReasons(r) ==
@@ -28,12 +38,14 @@ RangesReasons(r) ==
          \cup R(~r.capped, "iteration-does-not-end")
          \cup R(r.capped \/ r.seq = IntRange(r.b, r.e), "sequence")
          \cup R(SizeOk(r.T, r.b, r.e, r.size), "size")
+         \cup R(~r.w2 \/ r.seq2 = IntRange(r.b, r.e), "sequence-by-post-increment")   \* "yields b, b+1, ..., e-1": *it++ / ==
          \cup Obs(R(r.rsize = -1 \/ r.rsize = Count(r.b, r.e), "range-size"))
     [] r.f = "int_range_count" ->
          R(r.n \in TypeVals(r.T), "HARNESS-PRECONDITION")
          \cup R(~r.capped, "iteration-does-not-end")
          \cup R(r.capped \/ r.seq = IntRange(0, r.n), "sequence")
          \cup R(SizeOk(r.T, 0, r.n, r.size), "size")
+         \cup R(r.seq2 = IntRange(0, r.n), "sequence-by-post-increment")
     [] r.f = "int_range_rsize" ->
          R(r.seq = IntRange(r.b, r.e), "sequence")
          \cup R(r.size = Count(r.b, r.e), "size")
@@ -44,6 +56,8 @@ RangesReasons(r) ==
          \cup R(~r.capped, "iteration-does-not-end")
          \cup R(r.capped \/ IsWideRange(r.seq, r.b, r.e), "sequence")
          \cup R(r.capped \/ ~IsWideRange(r.seq, r.b, r.e) \/ r.size = Len(r.seq), "size")
+         \cup R((\A k \in 1..Len(r.seq2) : IsLimbs(r.seq2[k]) /\ Len(r.seq2[k]) = Len(r.b)) /\ IsWideRange(r.seq2, r.b, r.e),
+                "sequence-by-post-increment")
     [] r.f = "enum_range" ->
          LET s == IF r.via = "all" THEN 0 ELSE r.s
              e == IF r.via = "start_end" THEN r.e ELSE r.n - 1
@@ -52,21 +66,26 @@ RangesReasons(r) ==
          \cup R(~r.capped, "iteration-does-not-end")
          \cup R(r.capped \/ r.seq = EnumRange(s, e), "sequence")
          \cup R(r.size = e - s + 1, "size")
-         \cup Obs(R(r.rsize = e - s + 1, "range-size"))
+         \cup R(r.seq2 = EnumRange(s, e), "sequence-by-post-increment")   \* "yield every enumerator ... once in order": *it++ / ==
+         \cup Obs(R(r.rsize = -1 \/ r.rsize = e - s + 1, "range-size"))
     [] r.f = "cyclic_ra" ->
          (* extension: fcppt::iterator::base on a random-access cyclic_iterator; a at i, b at j *)
          LET in(x) == x \in 0..(r.len - 1)
              adv(x, d) == CycAdvance(x, d, r.len)
          IN
          R(r.len >= 1 /\ in(r.i) /\ in(r.j), "HARNESS-PRECONDITION")
-         \cup R(in(r.apn) /\ in(r.back) /\ in(r.npa) /\ in(r.reach) /\ in(r.pre) /\ in(r.post) /\ in(r.dec), "leaves-boundary")
+         \cup R(in(r.apn) /\ in(r.back) /\ in(r.npa) /\ in(r.reach) /\ in(r.pre) /\ in(r.post) /\ in(r.dec) /\ in(r.pdec)
+                /\ in(r.subi) /\ in(r.arrow) /\ in(r.preret) /\ in(r.postold) /\ in(r.decold) /\ in(r.pdecret), "leaves-boundary")
          \cup R(r.apn = adv(r.i, r.n) /\ r.npa = r.apn, "operator-plus")
          \cup R(r.back = r.i, "plus-then-minus")          \* advanced by n, then by -n: |n| steps there and back
          \cup R(r.pre = CycInc(r.i, r.len) /\ r.post = r.pre, "increment")      \* the single steps themselves
-         \cup R(r.dec = CycDec(r.i, r.len), "decrement")
-         \cup Obs(R(r.preret = r.pre /\ r.postold = r.i /\ r.decold = r.i, "increment-return-values"))
-         \cup Obs(R(r.reach = r.j, "advance-by-difference"))
-         \cup Obs(R(r.sub = r.deref /\ r.deref = r.base + adv(r.i, r.n), "subscript"))
+         \cup R(r.dec = CycDec(r.i, r.len) /\ r.pdec = r.dec, "decrement")
+         (* round 3, in scope: "advanced by n equals |n| single steps ... stays inside its boundary" *)
+         \cup R(r.preret = r.pre /\ r.postold = r.i /\ r.decold = r.i /\ r.pdecret = r.pdec, "increment-return-values")
+         \cup R(r.reach = adv(r.i, r.dba) /\ r.reach = r.j, "advance-by-difference")
+         \cup R(r.subi = adv(r.i, r.n), "subscript")             \* &a[n]: the element reached, by identity
+         \cup R(r.arrow = adv(r.i, r.n), "arrow")                \* (a + n).operator->()
+         \cup Obs(R(r.sub = r.deref /\ r.deref = r.base + adv(r.i, r.n), "subscript-value"))
          \cup Obs(R(r.lt = (r.dba > 0) /\ r.gt = (r.dab > 0) /\ r.le = ~r.gt /\ r.ge = ~r.lt, "ordering-vs-difference"))
          \cup Obs(R(r.eq = (r.i = r.j) /\ r.ne = ~r.eq, "equality"))
          \cup Obs(R(Cardinality({x \in {1, 2, 3} : (x = 1 /\ r.lt) \/ (x = 2 /\ r.eq) \/ (x = 3 /\ r.gt)}) = 1, "trichotomy"))
@@ -87,21 +106,44 @@ RangesReasons(r) ==
              exp == CycSteps(r.start, r.n, r.len)
          IN
          R(r.len >= 1 /\ in(r.start), "HARNESS-PRECONDITION")
-         \cup R(in(r.adv) /\ in(r.plus) /\ in(r.sub) /\ \A k \in 1..Len(r.steps) : in(r.steps[k]), "leaves-boundary")
+         \cup R(in(r.adv) /\ in(r.plus) /\ in(r.sub) /\ in(r.npa) /\ in(r.minus) /\ in(r.subi) /\ in(r.arrow) /\ in(r.arrow0) /\ in(r.w2)
+                /\ (\A k \in 1..Len(r.steps) : in(r.steps[k])) /\ (\A k \in 1..Len(r.olds) : in(r.olds[k])), "leaves-boundary")
          \cup R(r.steps = exp, "single-steps")
          \cup R(r.adv = Last(exp, r.start), "advance-vs-single-steps")
          \cup R(r.adv = CycAdvance(r.start, r.n, r.len), "advance")
          \cup R(r.plus = CycAdvance(r.start, r.n, r.len), "operator-plus")
-         \cup R(r.sub = CycAdvance(r.start, -r.n, r.len), "operator-minus")
+         \cup R(r.sub = CycAdvance(r.start, -r.n, r.len) /\ r.minus = r.sub, "operator-minus")
+         (* round 3, in scope: "a cyclic iterator advanced by n equals |n| single steps forward or backward and
+            always stays inside its boundary" - n + it, it[n] (= *(it + n), the element by its address),
+            operator-> after the advance, and the iterators returned by the single steps *)
+         \cup R(r.npa = CycAdvance(r.start, r.n, r.len), "operator-plus-commuted")
+         \cup R(r.subi = Last(exp, r.start), "subscript")
+         \cup R(r.arrow = Last(exp, r.start) /\ r.arrow0 = r.start, "arrow")
+         \cup R(r.preself /\ r.w2 = Last(exp, r.start) /\ Len(r.olds) = Len(exp)
+                /\ \A k \in 1..Len(r.olds) : k <= Len(exp) => r.olds[k] = (IF k = 1 THEN r.start ELSE exp[k - 1]), "step-return-values")
          \cup Obs(R(r.advv = r.base + r.adv /\ r.s0v = r.base + r.start
                     /\ Len(r.stepv) = Len(r.steps) /\ \A k \in 1..Len(r.steps) : r.stepv[k] = r.base + r.steps[k], "dereference"))
+    [] r.f = "cyclic_list" ->
+         (* cyclic_iterator over a bidirectional iterator: "equals |n| single steps forward or backward and always
+            stays inside its boundary" for the single steps themselves (pre and post forms) *)
+         LET in(i) == i \in 0..(r.len - 1)
+             exp == CycSteps(r.start, r.n, r.len)
+         IN
+         R(r.len >= 1 /\ in(r.start), "HARNESS-PRECONDITION")
+         \cup R(in(r.w2) /\ (\A k \in 1..Len(r.steps) : in(r.steps[k])) /\ (\A k \in 1..Len(r.olds) : in(r.olds[k])), "leaves-boundary")
+         \cup R(r.steps = exp, "single-steps")
+         \cup R(r.w2 = Last(exp, r.start) /\ Len(r.olds) = Len(exp)
+                /\ \A k \in 1..Len(r.olds) : k <= Len(exp) => r.olds[k] = (IF k = 1 THEN r.start ELSE exp[k - 1]), "step-return-values")
+         \cup Obs(R(r.eq /\ ~r.ne, "equality"))
     [] r.f = "spiral" ->
          R(r.d >= 0, "HARNESS-PRECONDITION")
          \cup R(~r.capped, "iteration-does-not-end")
          \cup R(r.capped \/ Injective(r.vis), "position-visited-twice")
          \cup R(r.capped \/ SeqSet(r.vis) = Disk(r.o, r.d), "not-the-manhattan-disk")
          \cup R(\A k \in 1..(Len(r.vis) - 1) : Manhattan(r.vis[k], r.o) <= Manhattan(r.vis[k + 1], r.o), "distance-decreases")
-         \cup Obs(R(r.capped \/ r.rsize = DiskSize(r.d), "range-size"))
+         \cup R(r.capped \/ r.vis2 = r.vis \/ (Injective(r.vis2) /\ SeqSet(r.vis2) = Disk(r.o, r.d)
+                  /\ \A k \in 1..(Len(r.vis2) - 1) : Manhattan(r.vis2[k], r.o) <= Manhattan(r.vis2[k + 1], r.o)), "walk-by-post-increment")
+         \cup Obs(R(r.capped \/ r.rsize = -1 \/ r.rsize = DiskSize(r.d), "range-size"))
     [] r.f = "moore" ->
          R(SeqSet(r.r) = Moore(r.p) /\ Len(r.r) = 8, "moore-neighbours")
     [] r.f = "neumann" ->
@@ -112,7 +154,7 @@ RangesReasons(r) ==
          IN
          R(0 <= i /\ i <= j /\ j <= r.len /\ Len(r.cont) = r.len, "HARNESS-PRECONDITION")
          \cup R(r.seq = SubSeq(r.cont, i + 1, j), "sequence")
-         \cup Obs(R(r.rsize = j - i, "range-size"))
+         \cup Obs(R(r.rsize = -1 \/ r.rsize = j - i, "range-size"))
     [] r.f = "static_int_range" ->
          Obs(R(r.seq = IntRange(r.s, r.e), "sequence"))
     [] OTHER -> {"unknown-record-kind"}
